@@ -243,27 +243,28 @@ A bounded FIFO whose `put` is enabled iff there is room and whose `get` is enabl
 and `Buffer.step .put` uses `s.queue.length < c.maxsize` (`SingleLane(self.maxsize)`, `maxsize ≥ 1`). -/
 namespace Spec
 
-inductive Act where
-  | put (x : Nat) | get
+inductive Act (α : Type) where
+  | put (x : α) | get
   deriving Repr, DecidableEq
 
-def canPut (maxsize : Nat) (q : List Nat) : Bool := maxsize == 0 || q.length < maxsize
+/-- there is room (`maxsize = 0`: always) -/
+def canPut {α : Type} (maxsize : Nat) (q : List α) : Bool := maxsize == 0 || q.length < maxsize
 
-def step (maxsize : Nat) (q : List Nat) : Act → Option (List Nat)
+def step {α : Type} (maxsize : Nat) (q : List α) : Act α → Option (List α)
   | .put x => if canPut maxsize q then some (q ++ [x]) else none
   | .get => match q with | _ :: rest => some rest | [] => none
 
 end Spec
 
 /-- the linearisation point of a call is its `append` / `popleft` -/
-def lin (c : Cfg) (s : State) : Act → Option Spec.Act
+def lin (c : Cfg) (s : State) : Act → Option (Spec.Act Nat)
   | .act t =>
     if c.isWriter t then some (.put (s.th t).val)
     else match s.q with | _ :: _ => some .get | [] => none
   | _ => none
 
 /-- the sequence of linearisation points along a run -/
-def specTrace (c : Cfg) : State → List Act → List Spec.Act
+def specTrace (c : Cfg) : State → List Act → List (Spec.Act Nat)
   | _, [] => []
   | s, a :: as =>
     match step c s a with
